@@ -838,6 +838,13 @@ def module_const(mod, name, depth=0):
             return -x.operand.value
         if isinstance(x, _ast.Name):
             return module_const(mod, x.id, depth + 1)
+        if isinstance(x, _ast.BinOp) and isinstance(x.op, _ast.Add):
+            # b'\n' + _DOT: bytes / str built from earlier constants
+            a, b = lit(x.left), lit(x.right)
+            if a is not _MC_MISSING and b is not _MC_MISSING and \
+                    type(a) is type(b) and isinstance(a, (bytes, str)):
+                return a + b
+            return _MC_MISSING
         if isinstance(x, (_ast.Tuple, _ast.List, _ast.Set)):
             vals = [lit(el) for el in x.elts]
             if any(y is _MC_MISSING for y in vals):
